@@ -248,6 +248,11 @@ func lifeKnobs(r rng) Knobs {
 func genGraph(r rng, seed uint64, id, family string, k Knobs) *sdl.Program {
 	p := &sdl.Program{ID: id, Seed: seed, Family: family}
 	p.NIfaces = r.n(1, 3)
+	for q := 0; q < p.NIfaces; q++ {
+		if r.p(0.12) {
+			p.Sealed = append(p.Sealed, q) // an interface with unexported methods
+		}
+	}
 	nT := r.n(k.MinTypes, k.MaxTypes)
 	for ti := 0; ti < nT; ti++ {
 		t := &sdl.Type{Name: fmt.Sprintf("%sT%d", id, ti)}
